@@ -219,12 +219,13 @@ func TestVerifC25(t *testing.T) {
 	defer func() { verifCommandRecorder = nil }()
 
 	// ---- is hook H1 wired into Run? ----------------------------------------------
-	// Every registered command run bare as root: with the hook in place at least
-	// one of them reaches the recorder. If none does and none of the answers is a
-	// gate refusal, Run parsed (and really executed) without consulting the hook.
+	// The read-only commands run bare as root: with the hook in place each of them
+	// reaches the recorder. If none does and none of the answers is a gate
+	// refusal, Run parsed (and really executed them, harmlessly: no hook context)
+	// without consulting the hook.
 	probeRec, probeForbidden := 0, 0
 	for _, l := range sf.Leaves {
-		if l.Unmodelled != "" {
+		if l.Unmodelled != "" || !c25Allowed[l.top()] {
 			continue
 		}
 		k := c25WellFormed(kit.NewRand("c25-probe"), l, 0, "probe")
